@@ -90,3 +90,4 @@ def run(ctx):
     refgraph.rule_substitution_sequence(ctx, "C03.substitution")
     refgraph.rule_removal_helpers(ctx, "C03.repointing_helpers")
     refgraph.rule_required_links(ctx, "C03.path_required_links")
+    refgraph.rule_group_merge_tags(ctx, "C03.group_merge_tags")
